@@ -169,6 +169,10 @@ func main() {
 	}
 	hangs := 0
 	exec := func(c Case) Event {
+		curHist = 0
+		if _, ok := c["hist"]; ok {
+			curHist = c.num("hist")
+		}
 		ch := make(chan Event, 1)
 		go func() { ch <- execSafe(f, c) }()
 		select {
